@@ -16,6 +16,9 @@ def run_one(s):
         base = tp.samplers.RandomUniformSampler(dom, n_points=3)
         iv = lambda k: math.inf if k >= 1000 else k
         smp = base.make_static(iv(s["iv0"])) if kind == "static" else base
+        # a SIBLING static sampler made from the same base sampler afterwards, with another interval: the two are independent objects
+        # (event "sib" = a call on the sibling, a stutter for the sampler under observation)
+        sib = base.make_static(iv(2 if s["iv0"] != 2 else 1000))
         seen = []
 
         def ident(p):
@@ -34,6 +37,10 @@ def run_one(s):
                 else:
                     ev.append({"a": "restatic", "iv": op["iv"], "ret": 0, "exc": r[1] if len(r) > 1 else r[0]})
                 continue
+            if op["a"] == "sib":
+                r = watched(lambda: sib.sample_points())
+                ev.append({"a": "sib", "iv": 0, "ret": 0} if r[0] == "ok" else {"a": "sib", "iv": 0, "ret": 0, "exc": r[1] if len(r) > 1 else r[0]})
+                continue
             if op["a"] == "call":
                 # device arguments: absent / "cpu" / torch.device / the indexed spelling of the same device
                 dv = [None, "cpu", torch.device("cpu"), "cpu:0"][(len(ev) + s["tid"]) % 4]
@@ -48,7 +55,11 @@ def run_one(s):
     # adaptive threshold sampler
     n = s["n"]
     ratio = s["ratio"][0] / s["ratio"][1]
-    smp = tp.samplers.AdaptiveThresholdRejectionSampler(dom, resample_ratio=ratio, n_points=n)
+    # every other scenario with an even number of points: the same number of rows as a BATCH of two parameter rows (n/2 points each);
+    # the documented threshold is that of the whole loss vector
+    batch = n % 2 == 0 and s["tid"] % 2 == 0
+    par = tp.spaces.Points(torch.tensor([[0.0], [1.0]]), tp.spaces.R1("k")) if batch else tp.spaces.Points.empty()
+    smp = tp.samplers.AdaptiveThresholdRejectionSampler(dom, resample_ratio=ratio, n_points=(n // 2 if batch else n))
     ids = {}
 
     def rid(v):
@@ -58,7 +69,7 @@ def run_one(s):
         return ids[k]
     for op in s["ops"]:
         loss = None if not op["loss"] else torch.tensor(op["loss"], dtype=torch.float32)
-        r = watched(lambda: smp.sample_points(unreduced_loss=loss))
+        r = watched(lambda: smp.sample_points(unreduced_loss=loss, params=par)[:, ["x"]])
         if r[0] != "ok":
             ev.append({"a": "sample", "loss": op["loss"], "ret": [], "x": [], "exc": r[1] if len(r) > 1 else r[0]})
             continue
